@@ -605,8 +605,16 @@ def eager_path(L, unit, res, W):
                 n += 1
                 z, u = jnp.asarray(z, dtype=jnp.float32), jnp.asarray(u, dtype=jnp.float32)
                 before = snap(ks_e)
-                with ScriptedPRNG(lambda fn, i, shape, info: z if fn == "normal" else u) as sp:
-                    out = L.kernel.transition(L.key, ks_e, ms_e, ep)
+                try:
+                    with ScriptedPRNG(lambda fn, i, shape, info: z if fn == "normal" else u) as sp:
+                        out = L.kernel.transition(L.key, ks_e, ms_e, ep)
+                except Exception as e:
+                    from mc import core as _core
+
+                    if not _core.raised_in_repo(e, transparent=("<lambda>",)):
+                        raise
+                    W.fail("eager", "transition-raises", {"kernel": name, "schedule": sched, "epoch": ie, "t": t, "mode": "eager"}, f"kernel.transition raised {type(e).__name__}: {e} in an eager transition (epoch type {etype}, t={t})")
+                    return
                 if not sp.log:
                     raise RuntimeError("seam saw no draw (eager)")
                 res.transitions += 1
